@@ -314,7 +314,35 @@ def t10_config(T):
            "Definition public_types : list string := " + cl([cs(n) for n, _ in types]) + "."]
     return "\n".join(out) + "\n"
 
+def t7_ext_type_of(T):
+    """arms of `impl From<&TlsExtension> for TlsExtensionType`: variant -> constant name, or the bound type of Unknown"""
+    U = T.Untranslatable
+    src = T.strip_comments(T.read("src/tls_extensions.rs"))
+    m = re.search(r"impl<'a>\s*From<&'a\s+TlsExtension<'a>>\s*for\s+TlsExtensionType\s*\{", src)
+    if not m: raise U("impl From<&TlsExtension> for TlsExtensionType not found")
+    c = T.match_close(src, m.end() - 1, "{", "}")
+    body = src[m.end():c]
+    mm = re.search(r"match\s*\*ext\s*\{", body)
+    if not mm: raise U("From<&TlsExtension>: `match *ext {` not found")
+    c2 = T.match_close(body, mm.end() - 1, "{", "}")
+    arms = [a.strip() for a in body[mm.end():c2].split(",\n") if a.strip()]
+    arms = [x for a in arms for x in re.split(r",\s*(?=TlsExtension::)", a)]
+    out = []
+    for a in arms:
+        a = T.nows(a).rstrip(",")
+        if not a: continue
+        m1 = re.match(r"TlsExtension::(\w+)(?:\((?:_|_,_)\)|\{\.\.\})?=>TlsExtensionType::(\w+)$", a)
+        m2 = re.match(r"TlsExtension::(\w+)\((\w+),_\)=>(\w+)$", a)
+        if m1: out.append('("%s", Some "%s")' % (m1.group(1), m1.group(2)))
+        elif m2 and m2.group(2) == m2.group(3): out.append('("%s", None)' % m2.group(1))
+        else: raise U("From<&TlsExtension>: arm not recognised: %r" % a)
+    return ("(* GENERATED by tools/translate.py (T7) from impl From<&TlsExtension> for TlsExtensionType -- do not edit *)\n"
+            "From Coq Require Import String List.\nImport ListNotations.\nOpen Scope string_scope.\n"
+            "(* variant name -> Some constant of TlsExtensionType | None = the type bound in the variant itself *)\n"
+            "Definition ext_type_arms : list (string * option string) := [" + "; ".join(out) + "].\n")
+
 def run(T, step, enums):
+    step("T7", ["ExtTypeOf.v"], lambda: {"ExtTypeOf.v": t7_ext_type_of(T)})
     step("T10", ["Config.v", "assert_traits.rs"], lambda: {"Config.v": t10_config(T), "assert_traits.rs": t10_asserts(T)})
     step("T9", ["AccessorForms.v"], lambda: {"AccessorForms.v": t9_accessors(T)})
     step("T3a", ["CipherTxt.v"], lambda: {"CipherTxt.v": t3a_cipher_txt(T)})
